@@ -14,7 +14,7 @@ CFG = dict(
                'A Named type alias accepts every value in code and in the specification (aliases are not resolvable at validation time) - '
                'noted, not judged. Session (ephemeral) facts added by a `rel(args).` statement are not validated by the code; the check covers '
                'Handler::session_insert_ephemeral, which is.',
-    bin='c33', n_quick=250, n_thorough=5000,
+    bin='c33', n_quick=250, n_thorough=1250,
     corr_name='Model/StoreSchema.v (+ Gen/SchemaMatches.v) vs schema declaration / validation / storing paths',
     rule='corpus (update with non-conforming insert half, declaration over non-conforming data, re-declaration narrower than data, mixed batch) + '
          'exhaustive matrix 11 declared types x 11 values (incl. Null, both int widths, timestamp, f32/int8 vectors of 2 dimensions) x 3 paths + '
